@@ -73,7 +73,7 @@ Section Analytic.
   Hypothesis round14_idem : forall x, round14 (round14 x) = round14 x.
   Hypothesis round14_err : forall x, Rabs (round14 x - x) <= 5 / 10 ^ 15.
 
-  Definition RA : Arith R := mkArith R Rplus Rminus Rmult Rdiv Rleb Rltb 0 1 2 (sqrt 2) Reps round14.
+  Definition RA : Arith R := mkArith R Rplus Rminus Rmult Rdiv Rleb Rltb 0 1 2 (sqrt 2) Reps round14 (fun _ => true).
   Definition RS : Special R := mkSpecial R erfinv Phi PhiInv log10R pow10R exp ln.
 
   Lemma Phi_mono (x y : R) : x <= y -> Phi x <= Phi y.
@@ -604,4 +604,174 @@ Section Analytic.
     unfold prior_random, prior_value_for, post. fold U. rewrite (quantile_gaussian p U Hf HU).
     unfold checked. apply within_true in V. rewrite V, Hf. reflexivity.
   Qed.
+
+  (* ---------- returning through the gate (repaired UniformPrior), and never-raising draws ---------- *)
+
+  Lemma value_ok_repaired (p : prior R) (u : R) :
+    p_lo p <= msg_value_for RA RS (message_of RA RS p) u <= p_hi p ->
+    exists v, prior_value_for RA RS Repaired p false u = Ok v /\ p_lo p <= v <= p_hi p /\
+              Rabs (v - msg_value_for RA RS (message_of RA RS p) u) <= 5 / 10 ^ 15 /\
+              (p_family p <> Uniform -> v = msg_value_for RA RS (message_of RA RS p) u).
+  Proof.
+    intro W. set (x := msg_value_for RA RS (message_of RA RS p) u) in *.
+    assert (E : prior_value_for RA RS Repaired p false u =
+                Ok (match p_family p with Uniform => uniform_round RA Repaired p false x | _ => x end)).
+    { unfold prior_value_for, post, checked. fold x. apply within_true in W. rewrite W. reflexivity. }
+    eexists. split; [exact E|]. split; [eapply gate_repaired; exact E|]. split.
+    - destruct (p_family p); try (replace (x - x) with 0 by ring; rewrite Rabs_R0; apply five_e15_nonneg).
+      apply uniform_round_close.
+    - intro Hf. destruct (p_family p); congruence.
+  Qed.
+
+  Lemma PhiInv_between (a b U : R) : Phi a <= U <= Phi b -> a <= PhiInv U <= b.
+  Proof.
+    intros [H1 H2]. pose proof (Phi_range a) as Ra. pose proof (Phi_range b) as Rb.
+    split.
+    - rewrite <- (PhiInv_Phi a). apply PhiInv_mono; lra.
+    - rewrite <- (PhiInv_Phi b). apply PhiInv_mono; lra.
+  Qed.
+
+  Lemma loguniform_unit_limits (p : prior R) : p_family p = LogUniform -> 0 < p_lo p -> p_lo p < p_hi p ->
+    lower_unit_limit RA RS p = Reps /\ upper_unit_limit RA RS p = 1 - Reps.
+  Proof.
+    intros Hf Hl Hlh. pose proof Reps_pos as P. pose proof Reps_small as Q.
+    assert (D : log10R (p_hi p / p_lo p) = log10R (p_hi p) - log10R (p_lo p)) by (apply log10R_div; lra).
+    assert (Dp : 0 < log10R (p_hi p / p_lo p)).
+    { apply log10R_pos. apply (Rmult_lt_reg_r (p_lo p)); [exact Hl|]. unfold Rdiv. rewrite Rmult_assoc, Rinv_l by lra. lra. }
+    unfold lower_unit_limit, upper_unit_limit, unit_value_for, msg_cdf, message_of. rewrite Hf. simpl.
+    unfold msg_transform, normal_cdf. simpl.
+    replace ((log10R (p_lo p) - log10R (p_lo p)) / log10R (p_hi p / p_lo p)) with 0 by (field; lra).
+    replace ((log10R (p_hi p) - log10R (p_lo p)) / log10R (p_hi p / p_lo p)) with 1 by (rewrite <- D; field; lra).
+    rewrite clamp_unit_zero, clamp_unit_one.
+    split.
+    - replace ((PhiInv Reps - 0) / 1) with (PhiInv Reps) by field. apply Phi_PhiInv. lra.
+    - replace ((PhiInv (1 - Reps) - 0) / 1) with (PhiInv (1 - Reps)) by field. apply Phi_PhiInv. lra.
+  Qed.
+
+  Lemma raw_loguniform_bounds (p : prior R) (U : R) : p_family p = LogUniform -> 0 < p_lo p -> p_lo p < p_hi p ->
+    0 < U < 1 -> p_lo p <= msg_value_for RA RS (message_of RA RS p) U <= p_hi p.
+  Proof.
+    intros Hf Hl Hlh HU. unfold msg_value_for, message_of. rewrite Hf. cbn [m_mean m_sigma m_transforms].
+    rewrite normal_value_eq by exact HU.
+    destruct (loguniform_onto (p_lo p) (p_hi p) U Hl Hlh) as [B _]; [lra|].
+    simpl in B. simpl. replace (0 + 1 * PhiInv U) with (PhiInv U) by ring. rewrite Phi_PhiInv by exact HU. exact B.
+  Qed.
+
+  (* Uniform and LogUniform priors: the unit window of a draw is [eps, 1 - eps] cut by the caller's bounds; a draw
+     never raises and lies within the limits *)
+  Lemma random_bounded_ok (p : prior R) (l u r : R) :
+    (p_family p = Uniform \/ (p_family p = LogUniform /\ 0 < p_lo p)) -> p_lo p < p_hi p ->
+    Rmax l (lower_unit_limit RA RS p) <= Rmin u (upper_unit_limit RA RS p) -> 0 <= r <= 1 ->
+    exists v, prior_random RA RS Repaired p l u r = Ok v /\ p_lo p <= v <= p_hi p.
+  Proof.
+    intros Hf Hlh Hab Hr. pose proof Reps_pos as P. pose proof Reps_small as Q.
+    pose proof (random_unit_between p l u r Hab Hr) as [B1 B2].
+    set (U := random_unit RA RS p l u r) in *.
+    assert (L : lower_unit_limit RA RS p = Reps /\ upper_unit_limit RA RS p = 1 - Reps).
+    { destruct Hf as [Hf|[Hf Hl]]; [apply uniform_unit_limits | apply loguniform_unit_limits]; assumption. }
+    destruct L as [L1 L2].
+    assert (HU : 0 < U < 1).
+    { pose proof (Rmax_r l (lower_unit_limit RA RS p)). pose proof (Rmin_r u (upper_unit_limit RA RS p)). lra. }
+    assert (W : p_lo p <= msg_value_for RA RS (message_of RA RS p) U <= p_hi p).
+    { destruct Hf as [Hf|[Hf Hl]].
+      - rewrite (quantile_uniform p U Hf HU). nra.
+      - apply raw_loguniform_bounds; assumption. }
+    destruct (value_ok_repaired p U W) as [v [E [B _]]]. exists v. split; [exact E | exact B].
+  Qed.
+
+  (* LogGaussian prior with 0 < lower < upper (for the default lower limit 0 the code evaluates np.log(0) = -inf,
+     which the real-number model cannot express) *)
+  Lemma random_loggaussian_ok (var : variant) (p : prior R) (l u r : R) :
+    p_family p = LogGaussian -> 0 < p_sigma p -> 0 < p_lo p -> p_lo p < p_hi p ->
+    Rmax l (lower_unit_limit RA RS p) <= Rmin u (upper_unit_limit RA RS p) -> 0 <= r <= 1 ->
+    exists v, prior_random RA RS var p l u r = Ok v /\ p_lo p <= v <= p_hi p.
+  Proof.
+    intros Hf Hs Hl Hlh Hab Hr.
+    pose proof (random_unit_between p l u r Hab Hr) as [B1 B2].
+    set (U := random_unit RA RS p l u r) in *.
+    assert (LL : lower_unit_limit RA RS p = Phi ((ln (p_lo p) - p_mean p) / p_sigma p)).
+    { unfold lower_unit_limit, unit_value_for, msg_cdf, message_of. rewrite Hf. reflexivity. }
+    assert (UL : upper_unit_limit RA RS p = Phi ((ln (p_hi p) - p_mean p) / p_sigma p)).
+    { unfold upper_unit_limit, unit_value_for, msg_cdf, message_of. rewrite Hf. reflexivity. }
+    assert (G : Phi ((ln (p_lo p) - p_mean p) / p_sigma p) <= U <= Phi ((ln (p_hi p) - p_mean p) / p_sigma p)).
+    { rewrite <- LL, <- UL. pose proof (Rmax_r l (lower_unit_limit RA RS p)). pose proof (Rmin_r u (upper_unit_limit RA RS p)). lra. }
+    pose proof (Phi_range ((ln (p_lo p) - p_mean p) / p_sigma p)) as R1.
+    pose proof (Phi_range ((ln (p_hi p) - p_mean p) / p_sigma p)) as R2.
+    assert (HU : 0 < U < 1) by lra.
+    destruct (PhiInv_between _ _ _ G) as [Z1 Z2].
+    assert (Y : ln (p_lo p) <= p_mean p + p_sigma p * PhiInv U <= ln (p_hi p)).
+    { split.
+      - apply (Rmult_le_compat_l (p_sigma p)) in Z1; [|lra].
+        replace (p_sigma p * ((ln (p_lo p) - p_mean p) / p_sigma p)) with (ln (p_lo p) - p_mean p) in Z1 by (field; lra). lra.
+      - apply (Rmult_le_compat_l (p_sigma p)) in Z2; [|lra].
+        replace (p_sigma p * ((ln (p_hi p) - p_mean p) / p_sigma p)) with (ln (p_hi p) - p_mean p) in Z2 by (field; lra). lra. }
+    assert (V : p_lo p <= exp (p_mean p + p_sigma p * PhiInv U) <= p_hi p).
+    { destruct Y as [Y1 Y2]. apply exp_mono in Y1. apply exp_mono in Y2. rewrite exp_ln in Y1, Y2 by lra. lra. }
+    exists (exp (p_mean p + p_sigma p * PhiInv U)). split; [|exact V].
+    unfold prior_random, prior_value_for, post. fold U. rewrite (quantile_loggaussian p U Hf HU).
+    unfold checked. apply within_true in V. rewrite V, Hf. reflexivity.
+  Qed.
 End Analytic.
+
+(* ---------- the closed ends of the unit interval: no assumption on the special functions except the value of
+   ndtr(sqrt2 * erfinv(-1 / +1)) (in binary64: ndtr(-inf) = 0, ndtr(+inf) = 1) ---------- *)
+Section Ends.
+  Variables (Phi PhiInv erfinv round14 : R -> R).
+  Hypothesis round14_err : forall x, Rabs (round14 x - x) <= 5 / 10 ^ 15.
+  Let A := RA round14.
+  Let S := RS Phi PhiInv erfinv.
+
+  Lemma ends_checked (p : prior R) (u : R) :
+    p_lo p <= msg_value_for A S (message_of A S p) u <= p_hi p ->
+    exists v, prior_value_for A S Repaired p false u = Ok v /\ p_lo p <= v <= p_hi p /\
+              Rabs (v - msg_value_for A S (message_of A S p) u) <= 5 / 10 ^ 15 /\
+              (p_family p <> Uniform -> v = msg_value_for A S (message_of A S p) u).
+  Proof. apply (value_ok_repaired Phi PhiInv erfinv round14 round14_err). Qed.
+
+  Lemma raw_at_end_uniform (p : prior R) (u q : R) : p_family p = Uniform ->
+    Phi (normal_value_for A S 0 1 u) = q ->
+    msg_value_for A S (message_of A S p) u = msg_inverse_transform A S [TLinear (p_lo p) (p_hi p - p_lo p)] q.
+  Proof. intros Hf Hq. unfold msg_value_for, message_of. rewrite Hf. simpl. simpl in Hq. rewrite Hq. reflexivity. Qed.
+
+  Lemma raw_at_end_loguniform (p : prior R) (u q : R) : p_family p = LogUniform ->
+    Phi (normal_value_for A S 0 1 u) = q ->
+    msg_value_for A S (message_of A S p) u =
+    msg_inverse_transform A S [TLinear (log10R (p_lo p)) (log10R (p_hi p / p_lo p)); TLog10] q.
+  Proof. intros Hf Hq. unfold msg_value_for, message_of. rewrite Hf. simpl. simpl in Hq. rewrite Hq. reflexivity. Qed.
+
+  Lemma value_at_zero_uniform (p : prior R) : p_family p = Uniform -> p_lo p < p_hi p ->
+    Phi (normal_value_for A S 0 1 0) = 0 ->
+    exists v, prior_value_for A S Repaired p false 0 = Ok v /\ p_lo p <= v <= p_hi p /\ Rabs (v - p_lo p) <= 5 / 10 ^ 15.
+  Proof.
+    intros Hf Hlh H0.
+    destruct (uniform_onto Phi PhiInv erfinv round14 (p_lo p) (p_hi p) 0 Hlh) as [_ [E0 _]]; [lra|].
+    assert (X : msg_value_for A S (message_of A S p) 0 = p_lo p) by (rewrite (raw_at_end_uniform p 0 0 Hf H0); exact E0).
+    destruct (ends_checked p 0) as [v [E [B [C _]]]]; [rewrite X; lra|].
+    exists v. rewrite X in C. auto.
+  Qed.
+
+  Lemma value_at_one_uniform (p : prior R) : p_family p = Uniform -> p_lo p < p_hi p ->
+    Phi (normal_value_for A S 0 1 1) = 1 ->
+    exists v, prior_value_for A S Repaired p false 1 = Ok v /\ p_lo p <= v <= p_hi p /\ Rabs (v - p_hi p) <= 5 / 10 ^ 15.
+  Proof.
+    intros Hf Hlh H1.
+    destruct (uniform_onto Phi PhiInv erfinv round14 (p_lo p) (p_hi p) 1 Hlh) as [_ [_ E1]]; [lra|].
+    assert (X : msg_value_for A S (message_of A S p) 1 = p_hi p) by (rewrite (raw_at_end_uniform p 1 1 Hf H1); exact E1).
+    destruct (ends_checked p 1) as [v [E [B [C _]]]]; [rewrite X; lra|].
+    exists v. rewrite X in C. auto.
+  Qed.
+
+  Lemma value_at_ends_loguniform (p : prior R) : p_family p = LogUniform -> 0 < p_lo p -> p_lo p < p_hi p ->
+    (Phi (normal_value_for A S 0 1 0) = 0 -> prior_value_for A S Repaired p false 0 = Ok (p_lo p)) /\
+    (Phi (normal_value_for A S 0 1 1) = 1 -> prior_value_for A S Repaired p false 1 = Ok (p_hi p)).
+  Proof.
+    intros Hf Hl Hlh.
+    destruct (loguniform_onto Phi PhiInv erfinv round14 (p_lo p) (p_hi p) 0 Hl Hlh) as [_ [E0 E1]]; [lra|].
+    assert (NU : p_family p <> Uniform) by congruence.
+    split; intro H.
+    - assert (X : msg_value_for A S (message_of A S p) 0 = p_lo p) by (rewrite (raw_at_end_loguniform p 0 0 Hf H); exact E0).
+      destruct (ends_checked p 0) as [v [E [_ [_ V]]]]; [rewrite X; lra|]. rewrite (V NU), X in E. exact E.
+    - assert (X : msg_value_for A S (message_of A S p) 1 = p_hi p) by (rewrite (raw_at_end_loguniform p 1 1 Hf H); exact E1).
+      destruct (ends_checked p 1) as [v [E [_ [_ V]]]]; [rewrite X; lra|]. rewrite (V NU), X in E. exact E.
+  Qed.
+End Ends.
